@@ -667,6 +667,67 @@ def oracle(value, kw, data, twin=None, presence=True):
   return hits
 
 # ------------------------------------------------------------------------------------------------
+# arbitrary trees built with nested Html.element calls: ties Model/Html.v render to Html.element itself (not only to the tree view)
+GOOD_NAMES = ['div', 'span', 'details', 'summary', 'table', 'tr', 'td', 'p', 'a', 'b', 'h1', 'x-y', 'A1', 'ul', 'li', 'q_r']
+BAD_NAMES = ['1a', '', 'a b', 'a>', 'style', 'script', 'é', 'a"b', '-a', 'a=b', 'a/b']
+ATTR_NAMES = ['id', 'title', 'data-x', 'href', 'aria-label', 'onclick']
+
+def gen_tree(rng, depth, bad=0.06):
+  r = rng.random()
+  frag = lambda: ''.join(rng.choice(FRAGMENTS + ['a', 'text', 'ZQ1X']) for _ in range(rng.randint(0, 3)))
+  if depth <= 0 or r < 0.3:
+    return [1, frag()]
+  if r < 0.3 + bad / 2:
+    return [2, frag()]
+  if r < 0.3 + bad:
+    return [3, rng.choice(['style', 'script', 'style', 'div']), rng.choice(['a { b: c; }', 'x > y & "z"', 'a<b', '', '</style>'])]
+  name = lambda: rng.choice(BAD_NAMES) if rng.random() < bad else rng.choice(GOOD_NAMES)
+  opts = []
+  for _ in range(rng.choice([0, 0, 0, 1, 1, 2])):
+    o = rng.choice(['open', 'hidden', 'checked', 'x-y']) if rng.random() > bad else rng.choice(BAD_NAMES[:3] + ['a b'])
+    if o not in opts and o != '':
+      opts.append(o)
+  attrs = []
+  if rng.random() < 0.4: attrs.append(['class', frag() or 'c'])
+  if rng.random() < 0.2: attrs.append(['style', frag() or 'color:red;'])
+  for a in rng.sample(ATTR_NAMES, rng.choice([0, 0, 1, 2])):
+    attrs.append([a, frag()])
+  return [0, name(), opts, attrs, [gen_tree(rng, depth - 1, bad) for _ in range(rng.choice([0, 1, 1, 2, 3]))]]
+
+def build_tree(t):
+  from pyglove.core.views.html.base import Html
+  if t[0] == 1: return Html.escape(t[1])
+  if t[0] == 2: return t[1]
+  if t[0] == 3: return Html.element(t[1], [t[2]])
+  kw = {}
+  for n, v in t[3]:
+    if n == 'class': kw['css_classes'] = Html.escape(v)
+    elif n == 'style': kw['styles'] = Html.escape(v)
+    else: kw[n.replace('-', '_')] = Html.escape(v)
+  return Html.element(t[1], [build_tree(k) for k in t[4]], options=t[2] or None, **kw)
+
+def py_name_ok(n):
+  return bool(n) and n[0] in NAME_START and all(c in NAME_CHAR for c in n)
+
+def py_names_ok(t):
+  if t[0] == 1: return True
+  if t[0] == 2: return False
+  if t[0] == 3: return t[1] in RAW_TAGS and '<' not in t[2]
+  return (py_name_ok(t[1]) and t[1] not in RAW_TAGS and all(py_name_ok(o) for o in t[2]) and all(py_name_ok(a) for a, _ in t[3])
+          and all(py_names_ok(k) for k in t[4]))
+
+def py_normalize(ts):
+  out, txt = [], ''
+  for t in ts:
+    if t[0] in (1, 2):
+      txt += t[1]
+    else:
+      if txt: out.append([1, txt]); txt = ''
+      out.append([0, t[1], t[2], t[3], py_normalize(t[4])] if t[0] == 0 else [3, t[1], t[2]])
+  if txt: out.append([1, txt])
+  return out
+
+# ------------------------------------------------------------------------------------------------
 # HTML controls (views/html/controls): oracle only.  Data: label text, tooltip text, sub-progress names, tab labels and the
 # values shown in tab contents.  Trusted (benign in the cases): id, css_classes, styles, link, target, for_element.
 CONTROL_KINDS = ['label', 'label+tooltip', 'badge', 'label-link', 'label-group', 'tooltip', 'tabs', 'progress']
@@ -913,6 +974,24 @@ def run(ctx):
     ctx.hist('tokenizer_docs', 'accepted' if t is not None else 'rejected')
     ctx.count(('doc', d), nontrivial=True, kind='tokenizer-vs-coq-parser')
 
+  # ---- arbitrary trees through nested Html.element calls against Model render / names_ok / reads_back
+  ntrees = 0
+  for _ in range(ctx.scale(400, 6000)):
+    t = gen_tree(rng, rng.choice([1, 2, 3, 4]), bad=rng.choice([0, 0.06, 0.2]))
+    try:
+      out = build_tree(t)
+      out = out if isinstance(out, str) else out.to_str(content_only=True)
+    except Exception as e:
+      ctx.hist('element_trees', 'raises-' + type(e).__name__); continue
+    ok = py_names_ok(t)
+    back = strict_parse_opt(out) == py_normalize([t])
+    if ok and not back:
+      ctx.hit('C20/element/well-named-tree-not-read-back', 'Html.element output of a well-named tree is not read back by the strict tokenizer', dict(spec=dict(kind='tree', tree=t)))
+    trs.append([4, enc_tree(t)]); impl_outs.append([4, trlib.enc(out), 1 if ok else 0, 1 if back else 0]); descr.append(dict(tree=json.dumps(t)[:400]))
+    ctx.hist('element_trees', 'names-ok' if ok else 'bad-names-or-raw'); ntrees += 1
+    ctx.count(('tree', json.dumps(t)), nontrivial=True, kind='html-element-tree')
+  ctx.extra['html_element_trees'] = ntrees
+
   # ---- html.escape against the model escape (exhaustive on short strings over the critical alphabet, then random)
   alpha = '&<>"\';a#x27lt'
   strs = ['']
@@ -944,6 +1023,10 @@ def replay(ctx, rp):
   if spec.get('kind') == 'escape':
     s = spec['s']
     return html_lib.unescape(html_lib.escape(s)) == s
+  if spec.get('kind') == 'tree':
+    out = build_tree(spec['tree'])
+    out = out if isinstance(out, str) else out.to_str(content_only=True)
+    return not py_names_ok(spec['tree']) or strict_parse_opt(out) == py_normalize([spec['tree']])
   if spec.get('kind') == 'control':
     hits, _ = oracle_control(spec)
   else:
